@@ -739,7 +739,9 @@ func (c *Ctx) typePredicateRule(rule string) {
 			d := c.ReachOf(ret)
 			switch {
 			case t.Is("const", "nil"):
-			case t.Kind == "call" && strings.HasSuffix(t.Name, ").Pkg") && t.Contains(func(s *core.Term) bool { return s.IsCallTo("(*go/types.Named).Obj") && s.Contains(func(q *core.Term) bool { return q.String() == p0 }) }):
+			case t.Kind == "call" && strings.HasSuffix(t.Name, ").Pkg") && t.Contains(func(s *core.Term) bool {
+				return s.IsCallTo("(*go/types.Named).Obj") && s.Contains(func(q *core.Term) bool { return q.String() == p0 })
+			}):
 				nNamed++
 				okAll = okAll && d.Implies(isA("*types.Named"))
 			case t.IsCallTo(pUtil+"PkgOf") && t.Args[0].IsCallTo("(*go/types.Pointer).Elem") && t.Args[0].Contains(func(q *core.Term) bool { return q.String() == p0 }):
@@ -1265,7 +1267,9 @@ func (c *Ctx) nodeAccessorRule(rule string) {
 				case "ConverterNode":
 					ok, want = t.IsCallTo("(*"+pOpt+"FieldConverter).RetType") && isRecvField(t.Args[0], "converter"), "converter.RetType()"
 				case "StringerEntry":
-					ok, want = t.Contains(func(s *core.Term) bool { return s.IsCallTo("(*go/types.Scope).Lookup") && s.Args[1].Is("const", `"string"`) }) || t.IsCallTo(fnStringType), "the predeclared string type"
+					ok, want = t.Contains(func(s *core.Term) bool {
+						return s.IsCallTo("(*go/types.Scope).Lookup") && s.Args[1].Is("const", `"string"`)
+					}) || t.IsCallTo(fnStringType), "the predeclared string type"
 				default:
 					continue
 				}
@@ -1430,5 +1434,36 @@ func (c *Ctx) defaultsRule(rule string) {
 			}
 		}
 		r.Floor(rule, "Parser literals setting opts", n, 1)
+	}
+}
+
+// loggerOptionRule: the functional options of the logger set the field they are named after.
+func (c *Ctx) loggerOptionRule(rule string) {
+	r := c.R
+	r.Rule(rule, "logger options: Enable() sets option.enabled = true, Output(w) sets option.out = w, ForTest() sets option.forTest = true – each exactly that one field")
+	want := map[string][2]string{"Enable": {"logger.option.enabled", "const:true"}, "Output": {"logger.option.out", "fv:out"}, "ForTest": {"logger.option.forTest", "const:true"}}
+	for _, name := range sortedKeys(want) {
+		fn := c.MustFunc(rule, "/pkg/logger", name)
+		if fn == nil {
+			continue
+		}
+		var stores []string
+		for _, a := range fn.AnonFuncs {
+			for _, b := range a.Blocks {
+				for _, in := range b.Instrs {
+					if st, ok := in.(*ssa.Store); ok {
+						if fa, ok := st.Addr.(*ssa.FieldAddr); ok {
+							stores = append(stores, core.FieldName(fa.X.Type(), fa.Field)+"="+c.O.Of(st.Val).String())
+						}
+					}
+				}
+			}
+		}
+		w := want[name]
+		ok := len(stores) == 1 && stores[0] == w[0]+"="+w[1]
+		if name == "Output" && len(stores) == 1 && strings.HasPrefix(stores[0], w[0]+"=") {
+			ok = strings.HasPrefix(stores[0], w[0]+"=fv:") || strings.HasPrefix(stores[0], w[0]+"=param:")
+		}
+		r.Check(rule, FnKey(fn)+":sets", c.Pos(fn.Pos()), ok, name+" must set exactly "+w[0]+", found "+strings.Join(stores, ", "))
 	}
 }
